@@ -145,7 +145,7 @@ func (r *Runner) oblige(st *State, kind, label string, goal Term, pos token.Pos)
 			}
 			o := &Oblig{Name: n, Kind: kind, Fn: r.curName, Goal: goal, Expect: "unsat", Status: "discharged", Solver: "trivial", FnObj: r.curFn, Spec: r.curSpec}
 			if r.curSpec != nil {
-				o.Props = r.curSpec.Props
+				o.Props = clauseProps(label, r.curSpec.Props)
 			}
 			r.obligs = append(r.obligs, o)
 		}
@@ -161,7 +161,7 @@ func (r *Runner) oblige(st *State, kind, label string, goal Term, pos token.Pos)
 		o.Params = st.frames[0].params
 	}
 	if r.curSpec != nil {
-		o.Props = r.curSpec.Props
+		o.Props = clauseProps(label, r.curSpec.Props)
 	}
 	r.obligs = append(r.obligs, o)
 	st.assume(goal)
@@ -838,6 +838,17 @@ func (r *Runner) execMakeSlice(st *State, f *Frame, x *ssa.MakeSlice) {
 	cp := r.operand(st, x.Cap).Term()
 	// sizes are checked for sign and len <= cap; running out of memory is not modelled
 	r.panicCheck(st, "makeslice", exprText(f.fn, x.Len), And(Le(Zero, ln), Le(ln, cp), Le(cp, BigLit(pow2(62)))), x.Pos())
+	if r.curSpec != nil && r.curSpec.AllocBound != nil && len(st.frames) == 1 {
+		env := r.newEnv(st, f.fn.Pkg)
+		env.frame = f
+		for i, n := range r.curSpec.Formals {
+			if n != "_" && i < len(f.params) {
+				env.vars[n] = f.params[i]
+			}
+		}
+		bound := env.intOf(env.EvalVal(r.curSpec.AllocBound, st))
+		r.oblige(st, "alloc", exprText(f.fn, x.Len), Le(cp, bound), x.Pos())
+	}
 	f.regs[x] = r.newSlice(st, x.Type(), ln, cp, true)
 }
 
@@ -955,4 +966,14 @@ func packResults(t types.Type, rv []Val) Val {
 	}
 	out.Clo = &Closure{Bindings: parts}
 	return out
+}
+
+// clauseProps attributes an obligation to properties: a clause label of the
+// form "C25:name" restricts the obligation to that property; otherwise it
+// belongs to every property the function's contract is tagged with.
+func clauseProps(label string, fnProps []string) []string {
+	if i := strings.Index(label, ":"); i > 0 && i <= 4 && label[0] == 'C' {
+		return []string{label[:i]}
+	}
+	return fnProps
 }
